@@ -8,15 +8,17 @@ LEVEL_TEXT += (" BLAKE2b and SipHash (E2 irsym): crypto_generichash(_blake2b) on
                "crypto_shorthash_siphash24/x24: the real reference units' LLVM IR is executed with message, key, salt and personalisation ALL symbolic and "
                "compared bit for bit with RFC 7693 / SipHash specification models over one shared bit-level graph (modular sums canonicalised); "
                "out-of-range output/key lengths must be refused.")
-E2_EQUIV = ["blake2b-ref-spec", "siphash-ref-spec"]
+E2_EQUIV = ["blake2b-ref-spec", "siphash-ref-spec", "poly1305-sse2-donna"]
 E2_LIMB = ["poly1305-blocks-donna64"]
 LEVEL_TEXT += (" Poly1305 (donna64 unit): buffering, RFC 8439 padding, final-block flag, clamping, split independence and verify exactness by CBMC over an abstract block function; "
                "poly1305_blocks == h <- (h + block + hibit) * r mod 2^130-5 for all accumulators, clamped keys and message bytes, 1..4 blocks, in E2 limb mode (integer polynomials + intervals, "
-               "no 64/128-bit wrap-around, congruence re-checked by z3); poly1305_finish == ((h mod p) + pad) mod 2^128 by CBMC.")
+               "no 64/128-bit wrap-around, congruence re-checked by z3); poly1305_finish == ((h mod p) + pad) mod 2^128 by CBMC. SSE2 unit (the one selected on x86-64): crypto_onetimeauth_poly1305_sse2 == the donna unit bit for bit "
+               "(E2 equiv) with r in {1,2,4,8} concrete, pad and message symbolic, lengths 0..47 -- lane set-up, [r^2,r] / [r,1] final multiplication, SIMD carry chains, 26->44-bit limb "
+               "conversion, the conditional subtraction of p (accumulators up to and across 2^130-5 are reachable with r = 2) and the pad addition.")
 TRUSTED = ["CBMC 6.11 + cvc5 1.0", "irsym LLVM-IR interpreter; BLAKE2b spec model validated against Python hashlib, SipHash against the paper's vector (development) and by structural agreement with the reference unit", "spec models in models/ (validated against FIPS/RFC vectors by bin/setup)",
            "composition: padding/chunking over an abstract compression function + compression function == spec => hash == spec"]
 ASSUMPTIONS = ["message lengths in the enumerated sets"]
-OUTSIDE = ["poly1305_sse2.c block arithmetic (the donna unit is decided end to end: buffering/padding/clamping/verify (CBMC), block multiplication mod 2^130-5 (E2 limb mode), final reduction (CBMC))", "poly1305_sse2.c",
+OUTSIDE = ["poly1305_sse2.c for keys r that are not a power of two <= 8 and for messages longer than 47 bytes (its multiplications by general r / r^2 / r^4 are symbolic-by-symbolic 26-bit-limb SIMD products; the donna unit is decided end to end: buffering/padding/clamping/verify (CBMC), block multiplication mod 2^130-5 (E2 limb mode), final reduction (CBMC))",
            "messages longer than the bounds / other split points", "SIMD BLAKE2b compression units vs the reference unit: under C10 (E2, thorough tier)"]
 
 
@@ -99,10 +101,6 @@ def obligations(tier):
                           instrument=[["--replace-calls", "poly1305_blocks:cut_blocks"]], tier="quick" if q else "thorough", family="poly1305-buffering",
                           desc="Poly1305 one-shot and 3-chunk streaming feed exactly the RFC 8439 block sequence (padding, final flag) into the (abstract) block function; same tag; verify exact; key clamping",
                           bounds="all message/key/tag bytes; (len, split a, split b) enumerated"))
-    obs.append(Ob("poly1305-sse2-finalize", "C04/poly1305_sse2_fin.c", units=["sodium/utils.c", "crypto_verify/verify.c"], stubs=["misuse.c", "libc.c", "x86_builtins.c"],
-                  undefs=["HAVE_AMD64_ASM"], unwind=20, timeout=1500, mem=30, nochecks=True, family="poly1305-finish",
-                  desc="SSE2 unit: poly1305_finish (lane combination, SIMD carry chain, 26->44-bit limbs, carry passes, conditional subtraction of p, pad) == (((lane0 + lane1) mod 2^130-5) + pad) mod 2^128 with r = 1",
-                  bounds="both accumulator lanes (10 limbs < 2^27) and the pad symbolic; key fixed to r = 1 (lane multiplication is the identity); pad addition through the unit's portable branch"))
     obs.append(Ob("poly1305-finish", "C04/poly1305_glue.c", units=["sodium/utils.c", "crypto_verify/verify.c"], stubs=["misuse.c", "libc.c", "x86_builtins.c"],
                   defs={"PART": 1, "LEN": 1}, unwind=20, timeout=900, nochecks=True, family="poly1305-finish",
                   desc="poly1305_finish == ((h mod 2^130-5) + pad) mod 2^128 for every partially reduced accumulator", bounds="limbs h0,h1,h2 < 2^46, pad 128 bits, all symbolic"))
